@@ -52,33 +52,57 @@ theorem isOpaque_not_numeric {s : Scalar} (h : isOpaque s = true) :
 
 /-! ### explicit casts -/
 
-mutual
-theorem convVal_cast : ∀ (v : Val) (a c : Ty), hasTypeB v a = true → canCast a c = true →
-    hasTypeB (convVal c v) c = true
-  | .num s n d, .scalar a, .scalar c, hv, hc => by
-    simp only [canCast, Bool.and_eq_true] at hc
-    have hs := hc.2
-    simp only [hasTypeB, Bool.and_eq_true, beq_iff_eq] at hv
+/-- under the user-scalar tags of a value of a scalar type lies a value of its concrete base -/
+theorem unwrap_typed {v : Val} {a : Sc} {x : Scalar} (hv : hasTypeB v (.scalar a) = true)
+    (hx : a.top = some x) : hasTypeB (unwrap v) (.scalar (.base x)) = true := by
+  cases a with
+  | base x' =>
+    simp only [Sc.top, Option.some.injEq] at hx
+    subst hx
+    rw [unwrap_base hv]; exact hv
+  | derived ch x' =>
+    simp only [Sc.top, Option.some.injEq] at hx
+    subst hx
+    cases v with
+    | derived ch' s w =>
+      simp only [hasTypeB, Bool.and_eq_true, beq_iff_eq, Sc.derived.injEq] at hv
+      obtain ⟨⟨_, rfl⟩, hw⟩ := hv
+      simp only [unwrap, unwrap_base hw]
+      exact hw
+    | num _ _ _ => simp [hasTypeB] at hv
+    | str _ => simp [hasTypeB] at hv
+    | bool _ => simp [hasTypeB] at hv
+    | «opaque» _ _ => simp [hasTypeB] at hv
+    | obj _ _ => simp [hasTypeB] at hv
+    | tuple _ => simp [hasTypeB] at hv
+    | array _ _ => simp [hasTypeB] at hv
+    | enumv _ _ => simp [hasTypeB] at hv
+  | enum n => simp [Sc.top] at hx
+
+/-- the conversions between std scalars the evaluator performs for an explicit cast -/
+theorem convScalar_cast {v : Val} {x y : Scalar} (hv : hasTypeB v (.scalar (.base x)) = true)
+    (hs : safeCastS x y = true) : hasTypeB (convScalar y v) (.scalar (.base y)) = true := by
+  cases v with
+  | num s n d =>
+    simp only [hasTypeB, Bool.and_eq_true, beq_iff_eq, Sc.base.injEq] at hv
     obtain ⟨rfl, hn⟩ := hv
-    by_cases hcn : isNumeric c = true
-    · simp [convVal, hcn, hasTypeB]
-    · have hcn' : isNumeric c = false := by simpa using hcn
+    by_cases hcn : isNumeric y = true
+    · simp [convScalar, hcn, hasTypeB]
+    · have hcn' : isNumeric y = false := by simpa using hcn
       simp only [safeCastS, Bool.or_eq_true, Bool.and_eq_true, beq_iff_eq] at hs
       rcases hs with ((h | h) | h) | h
       · subst h; rw [hn] at hcn'; cases hcn'
       · have := (kind_of_castable h).1; rw [hn, hcn'] at this; cases this
       · rw [h.2] at hcn'; cases hcn'
-      · have : c = .str := h.1
+      · have : y = .str := h.1
         subst this
-        simp [convVal, hcn', hasTypeB]
-  | .str x, .scalar a, .scalar c, hv, hc => by
-    simp only [canCast, Bool.and_eq_true] at hc
-    have hs := hc.2
-    simp only [hasTypeB, beq_iff_eq] at hv
+        simp [convScalar, hcn', hasTypeB]
+  | str s =>
+    simp only [hasTypeB, beq_iff_eq, Sc.base.injEq] at hv
     subst hv
     simp only [safeCastS, Bool.or_eq_true, Bool.and_eq_true, beq_iff_eq, numeric_lits.2.2.2.2.1,
       Bool.false_and, Bool.false_eq_true, or_false, false_or] at hs
-    have : c = .str := by
+    have : y = .str := by
       rcases hs with (h | h) | h
       · exact h.symm
       · have := (kind_of_castable h).2.2.1
@@ -86,18 +110,16 @@ theorem convVal_cast : ∀ (v : Val) (a c : Ty), hasTypeB v a = true → canCast
         exact (beq_iff_eq.1 this.symm)
       · exact absurd h.2 (by decide)
     subst this
-    simp [convVal, hasTypeB]
-  | .bool x, .scalar a, .scalar c, hv, hc => by
-    simp only [canCast, Bool.and_eq_true] at hc
-    have hs := hc.2
-    simp only [hasTypeB, beq_iff_eq] at hv
+    simp [convScalar, hasTypeB]
+  | bool b =>
+    simp only [hasTypeB, beq_iff_eq, Sc.base.injEq] at hv
     subst hv
-    by_cases hcs : c = .str
-    · subst hcs; simp [convVal, hasTypeB]
-    · have hcs' : (c == Scalar.str) = false := by simpa using hcs
+    by_cases hcs : y = .str
+    · subst hcs; simp [convScalar, hasTypeB]
+    · have hcs' : (y == Scalar.str) = false := by simpa using hcs
       simp only [safeCastS, Bool.or_eq_true, Bool.and_eq_true, beq_iff_eq, numeric_lits.2.2.2.2.2,
         Bool.false_and, Bool.false_eq_true, or_false, false_or] at hs
-      have : c = .bool := by
+      have : y = .bool := by
         rcases hs with (h | h) | h
         · exact h.symm
         · have := (kind_of_castable h).2.2.2
@@ -105,20 +127,55 @@ theorem convVal_cast : ∀ (v : Val) (a c : Ty), hasTypeB v a = true → canCast
           exact (beq_iff_eq.1 this.symm)
         · exact absurd h.1 hcs
       subst this
-      simp [convVal, hasTypeB]
-  | .opaque s k, .scalar a, .scalar c, hv, hc => by
-    simp only [canCast, Bool.and_eq_true] at hc
-    have hs := hc.2
-    simp only [hasTypeB, Bool.and_eq_true, beq_iff_eq] at hv
+      simp [convScalar, hasTypeB]
+  | «opaque» s k =>
+    simp only [hasTypeB, Bool.and_eq_true, beq_iff_eq, Sc.base.injEq] at hv
     obtain ⟨rfl, hn⟩ := hv
     have hno := isOpaque_not_numeric hn
     simp only [safeCastS, Bool.or_eq_true, Bool.and_eq_true, beq_iff_eq, hno.1,
       Bool.false_and, Bool.false_eq_true, or_false, hno.2.2, and_false] at hs
-    have : isOpaque c = true := by
+    have : isOpaque y = true := by
       rcases hs with h | h
       · subst h; exact hn
       · rw [← (kind_of_castable h).2.1]; exact hn
-    simp [convVal, this, hasTypeB]
+    simp [convScalar, this, hasTypeB]
+  | obj _ _ => simp [hasTypeB] at hv
+  | tuple _ => simp [hasTypeB] at hv
+  | array _ _ => simp [hasTypeB] at hv
+  | derived _ _ _ => simp [hasTypeB] at hv
+  | enumv _ _ => simp [hasTypeB] at hv
+
+theorem convSc_cast {v : Val} {a c : Sc} (hv : hasTypeB v (.scalar a) = true)
+    (hc : canCast (.scalar a) (.scalar c) = true) :
+    hasTypeB (convVal (.scalar c) v) (.scalar c) = true := by
+  simp only [canCast, Bool.or_eq_true, beq_iff_eq] at hc
+  rcases hc with rfl | hc
+  · exact convSc_typed hv (convertibleSc_refl _)
+  · split at hc
+    · rename_i x y hx hy
+      simp only [Bool.and_eq_true] at hc
+      have hw := unwrap_typed hv hx
+      cases c with
+      | base y' =>
+        simp only [Sc.top, Option.some.injEq] at hy
+        subst hy
+        simp only [convVal]
+        exact convScalar_cast hw hc.2
+      | derived ch y' =>
+        simp only [Sc.top, Option.some.injEq] at hy
+        subst hy
+        simp only [convVal]
+        split
+        · assumption
+        · simp only [hasTypeB, BEq.rfl, Bool.true_and]
+          exact convScalar_cast hw hc.2
+      | enum n => simp [Sc.top] at hy
+    · cases hc
+
+mutual
+theorem convVal_cast : ∀ (v : Val) (a c : Ty), hasTypeB v a = true → canCast a c = true →
+    hasTypeB (convVal c v) c = true
+  | v, .scalar a, .scalar c, hv, hc => convSc_cast hv hc
   | .obj t i, .obj a, .obj c, hv, hc => by
     simp only [hasTypeB, beq_iff_eq] at hv
     simp only [canCast, beq_iff_eq] at hc
@@ -137,10 +194,12 @@ theorem convVal_cast : ∀ (v : Val) (a c : Ty), hasTypeB v a = true → canCast
   | .str _, .obj _, _, hv, _ | .str _, .tuple _, _, hv, _ | .str _, .array _, _, hv, _
   | .bool _, .obj _, _, hv, _ | .bool _, .tuple _, _, hv, _ | .bool _, .array _, _, hv, _
   | .opaque _ _, .obj _, _, hv, _ | .opaque _ _, .tuple _, _, hv, _ | .opaque _ _, .array _, _, hv, _
-  | .obj _ _, .scalar _, _, hv, _ | .obj _ _, .tuple _, _, hv, _ | .obj _ _, .array _, _, hv, _
-  | .tuple _, .scalar _, _, hv, _ | .tuple _, .obj _, _, hv, _ | .tuple _, .array _, _, hv, _
-  | .array _ _, .scalar _, _, hv, _ | .array _ _, .obj _, _, hv, _
-  | .array _ _, .tuple _, _, hv, _ => by
+  | .derived _ _ _, .obj _, _, hv, _ | .derived _ _ _, .tuple _, _, hv, _
+  | .derived _ _ _, .array _, _, hv, _
+  | .enumv _ _, .obj _, _, hv, _ | .enumv _ _, .tuple _, _, hv, _ | .enumv _ _, .array _, _, hv, _
+  | .obj _ _, .tuple _, _, hv, _ | .obj _ _, .array _, _, hv, _
+  | .tuple _, .obj _, _, hv, _ | .tuple _, .array _, _, hv, _
+  | .array _ _, .obj _, _, hv, _ | .array _ _, .tuple _, _, hv, _ => by
     simp [hasTypeB] at hv
   | _, .scalar _, .obj _, _, hc | _, .scalar _, .tuple _, _, hc | _, .scalar _, .array _, _, hc
   | _, .obj _, .scalar _, _, hc | _, .obj _, .tuple _, _, hc | _, .obj _, .array _, _, hc
@@ -185,10 +244,10 @@ theorem product_typed : ∀ (bags : List (List Val)) (ts : List Ty), BagsOK bags
   | [], _ :: _, hb, _, _ | _ :: _, [], hb, _, _ => by simp [BagsOK] at hb
 
 theorem convBags_ok : ∀ (bags : List (List Val)) (ts ptys : List Ty), BagsOK bags ts →
-    implCastableL ts ptys = true → BagsOK (convBags ptys bags) ptys
+    convertibleL ts ptys = true → BagsOK (convBags ptys bags) ptys
   | [], [], [], _, _ => by simp [convBags, BagsOK]
   | b :: bs, t :: ts, p :: ps, hb, hc => by
-    simp only [implCastableL, Bool.and_eq_true] at hc
+    simp only [convertibleL, Bool.and_eq_true] at hc
     simp only [convBags, BagsOK]
     refine ⟨?_, convBags_ok bs ts ps hb.2 hc.2⟩
     intro v hv
@@ -196,12 +255,12 @@ theorem convBags_ok : ∀ (bags : List (List Val)) (ts ptys : List Ty), BagsOK b
     obtain ⟨w, hw, rfl⟩ := hv
     exact convVal_hasType w t p (hb.1 w hw) hc.1
   | [], _ :: _, _, hb, _ | _ :: _, [], _, hb, _ => by simp [BagsOK] at hb
-  | [], [], _ :: _, _, hc | _ :: _, _ :: _, [], _, hc => by simp [implCastableL] at hc
+  | [], [], _ :: _, _, hc | _ :: _, _ :: _, [], _, hc => by simp [convertibleL] at hc
 
 /-! ### primitives -/
 
 theorem arith2_typed (f : Fn) (s s' : Scalar) (a c : Int) (b d : Nat) (r : Ty) (v : Val)
-    (hr : (if (s == s') = true then Option.map Ty.scalar (arithResult f s) else none) = some r)
+    (hr : (if (s == s') = true then Option.map (fun r => Ty.scalar (.base r)) (arithResult f s) else none) = some r)
     (h1 : (if (s == s') = true then
         match arithResult f s, ratArith f { n := a, d := b } { n := c, d := d } with
         | some r, some x => some (Val.num r x.n x.d)
@@ -295,7 +354,7 @@ theorem minBy_mem (lt : Val → Val → Bool) (a : List Val) (v : Val) (h : minB
       · cases h; exact List.mem_cons_self
 
 theorem enumFrom_typed (t : Ty) (a : List Val) (i : Nat) (ha : ∀ v ∈ a, hasTypeB v t = true) :
-    ∀ v ∈ enumFrom i a, hasTypeB v (.tuple [.scalar .int64, t]) = true := by
+    ∀ v ∈ enumFrom i a, hasTypeB v (.tuple [.scalar (.base .int64), t]) = true := by
   induction a generalizing i with
   | nil => intro v hv; cases hv
   | cons x xs ih =>
@@ -473,31 +532,39 @@ theorem prim_typed (f : Fn) (ptys : List Ty) (bags : List (List Val)) (r : Ty)
     case h_20 =>
       obtain ⟨t, rfl, _⟩ := bags1 hb
       cases t with
-      | scalar s =>
-        simp only [primRet, Option.map_eq_some_iff] at hr
-        obtain ⟨r', hr', rfl⟩ := hr
-        simp only [hr', List.mem_singleton] at hv
-        subst hv
-        simp [hasTypeB, sumResult_numeric hr']
+      | scalar sc =>
+        cases sc with
+        | base s =>
+          simp only [primRet, Option.map_eq_some_iff] at hr
+          obtain ⟨r', hr', rfl⟩ := hr
+          simp only [hr', List.mem_singleton] at hv
+          subst hv
+          simp [hasTypeB, sumResult_numeric hr']
+        | derived _ _ => simp [primRet] at hr
+        | enum _ => simp [primRet] at hr
       | obj _ => simp [primRet] at hr
       | tuple _ => simp [primRet] at hr
       | array _ => simp [primRet] at hr
     case h_21 =>
       obtain ⟨t, rfl, _⟩ := bags1 hb
       cases t with
-      | scalar s =>
-        simp only [primRet, Option.map_eq_some_iff] at hr
-        obtain ⟨r', hr', rfl⟩ := hr
-        simp only [hr'] at hv
-        split at hv
-        · split at hv
-          · simp only [List.mem_singleton] at hv
-            subst hv
-            rename_i h1 _ _ _ _
-            cases h1
-            simp [hasTypeB, meanResult_numeric hr']
+      | scalar sc =>
+        cases sc with
+        | base s =>
+          simp only [primRet, Option.map_eq_some_iff] at hr
+          obtain ⟨r', hr', rfl⟩ := hr
+          simp only [hr'] at hv
+          split at hv
+          · split at hv
+            · simp only [List.mem_singleton] at hv
+              subst hv
+              rename_i h1 _ _ _ _
+              cases h1
+              simp [hasTypeB, meanResult_numeric hr']
+            · cases hv
           · cases hv
-        · cases hv
+        | derived _ _ => simp [primRet] at hr
+        | enum _ => simp [primRet] at hr
       | obj _ => simp [primRet] at hr
       | tuple _ => simp [primRet] at hr
       | array _ => simp [primRet] at hr
